@@ -304,6 +304,24 @@ def run_builtin(spelling, kind):
             vals = [m.packages[0].refs[0].t, m.refs[0].t] + list(m.refs[1].ts) + [m.refs[2].t]
             if [id(v) for v in vals] != [id(bi["int"]), id(ax), id(bi["str"]), id(ax), id(bi["int"]), id(bi["str"])]:
                 bad.append(("reference values",))
+        elif kind == "handmade":
+            # the builtin is an instance of a user class of the SAME meta-model, made by hand (documented builtins recipe): it was never parsed,
+            # so it has no definition file and no span (the class itself carries the position of its rule in the grammar text)
+            class Class:
+                def __init__(self, parent=None, name=None):
+                    self.parent, self.name = parent, name
+            hand = Class(None, "int")
+            mm = metamodel_from_str(GRAMMAR, textx_tools_support=True, builtins={"int": hand}, classes=[Class])
+            mm.register_scope_providers({"*.*": FQN()})
+            text = "p a { c x } r int r a.x"
+            obs["text"] = text
+            m = mm.model_from_str(text)
+            ax = resolve_name(m, "a.x")
+            i1, i2 = text.index("int"), text.index("a.x")
+            exp = [(i1, i1 + 3, None, None, None), (i2, i2 + 3, None, ax._tx_position, ax._tx_position_end)]
+            got = [(r.ref_pos_start, r.ref_pos_end, r.def_file_name, r.def_pos_start, r.def_pos_end) for r in m._pos_crossref_list]
+            if got != exp:
+                bad.append(("crossref list", str(exp), str(got)))
         elif kind.startswith("root:"):
             # a root match rule whose processor returns a value that is no textX object: nothing to list, but the load works
             from decimal import Decimal
@@ -380,6 +398,7 @@ def run(ctx):
         cases.append(("mixed", sp, (0,), True))
         cases.append(("builtin", sp, "library", False))
     cases.append(("builtin", "tight", "foreign", False))
+    cases.append(("builtin", "tight", "handmade", False))
     for k in ("decimal", "list", "tuple"):
         cases.append(("builtin", "tight", "root:" + k, False))
     ctx.pmap(work, [cases[i:i + 6] for i in range(0, len(cases), 6)])
